@@ -237,6 +237,11 @@ impl Honest {
             *r.pick(&[0, 4, 8, 20]),
         ];
         let cid_lifetime_ms = if r.chance(25) { Some(*r.pick(&[50, 500, 5000])) } else { None };
+        // (one-byte CIDs wrap around after 256 issues: rotation then hands out values - and with
+        // them reset tokens - that were in use before, and a stateless reset seen for the retired
+        // value becomes valid again. Rotation with tiny CIDs is the C09 `short-cid` group's
+        // business, with the bookkeeping that needs.)
+        let cid_lifetime_ms = if cid_len[0] == 1 { None } else { cid_lifetime_ms };
         if cid_len[0] == 0 {
             // a server with zero-length CIDs routes by address: its clients cannot migrate
             for (_, op) in &mut ops {
